@@ -12,6 +12,9 @@ CATALOGUE = {
     "T263": (263, -3, 1, 257, (0, 1), 1),
     "T257": (257, -3, 1, 251, (0, 1), 1),
     "T251": (251, 1, 4, 271, (0, 2), 1),
+    # the same equation and group order as T263 with another base point (7 G): a different curve object for every
+    # purpose that involves the generator (key agreement, signatures)
+    "T263g": (263, -3, 1, 257, "7*T263", 1),
     # cofactor curves: generator found at import time (a point of order n)
     "Th2": (257, 2, 6, 139, None, 2),
     "Th4": (257, 1, 8, 67, None, 4),
@@ -63,6 +66,10 @@ def t_order(P, p, a):
 
 def params(cid):
     p, a, b, n, G, h = CATALOGUE[cid]
+    if isinstance(G, str):
+        k, base = G.split("*")
+        G = t_mul(int(k), CATALOGUE[base][4], p, a)
+        CATALOGUE[cid] = (p, a, b, n, G, h)
     if G is None:
         for pt in t_points(p, a, b):
             if t_order(pt, p, a) == n:
